@@ -69,6 +69,7 @@ fn recv_panics(w: &World, prop: &str) -> Option<Violation> {
             RecvOutcome::Panic(d) => return v(prop, "no-panic", "panic", &panic_site(d), format!("recv #{} panicked: {}", i, d)),
             RecvOutcome::Msg { drop_panic: Some(d), .. } => return v(prop, "no-panic", "panic", &panic_site(d), format!("dropping the guard of recv #{} panicked: {}", i, d)),
             RecvOutcome::InFlight => return v(prop, "recv-returns", "hang", "recv", format!("recv #{} never returned", i)),
+            RecvOutcome::Msg { invalid: Some(what), .. } => return v(prop, "valid-guard", "invalid-content", "recv", format!("recv #{} handed out a message that is not a valid value: {}", i, what)),
             _ => {}
         }
     }
@@ -271,11 +272,9 @@ pub fn check_faults(w: &World, plan: &Plan, prop: &str, _is_async: bool) -> Opti
         if a.accepted > 0 && a.accepted < a.frame_len {
             partial_seen = Some(i);
         }
-        // hook cross-check: poisoned <=> a partial message exists
-        let should = partial_seen.is_some();
-        if a.poisoned_after != should {
-            return v(prop, "S1-sink", "poison-flag", "send", format!("after attempt #{}: poisoned={} but partial-message-on-wire={}", i, a.poisoned_after, should));
-        }
+        // (the `poisoned` flag read through the hook is only a probe: the property is about what
+        // reaches the sink, and that is checked directly above because the harness keeps
+        // sending after a failure)
         off += a.accepted;
     }
     if w.pipe.sink.len() != off {
